@@ -209,6 +209,8 @@ func checkC15(c *Ctx) {
 	c.Rule("R15.5", "whole stack: growth loop re-captures with the same skip while full; only the final frame is dropped", 3)
 	c.Rule("R15.9", "the slog handler's defaults are set before the options are applied; nothing is stored into the handler afterwards", 1)
 	c15DefaultsBeforeOptions(c, "R15.9")
+	c.Rule("R15.10", "the short caller names the same file as the full one: everything after the penultimate '/', the whole path with fewer than two separators (a leading separator is kept)", 1)
+	c2TrimmedPath(c, "R15.10")
 
 	zp := ZapPath
 	check := c.Method(zp, "Logger", "check")
